@@ -19,3 +19,7 @@ open Biogo.Properties.C05
 #print axioms reverse_involutive_alignment
 #print axioms clone_deep_alignment
 #print axioms history_observes_runOps
+#print axioms initial_object_wellformed
+#print axioms operation_is_local
+#print axioms untouched_object_unchanged_all
+#print axioms clone_deep_all
